@@ -84,6 +84,21 @@ CHECKS = {
         note='Found and fixed (13935a3): with one receiver and two senders unbuffered_send overwrote a value still in the hand-off slot (send(1) returned true, 1 was never delivered) - confirmed on the live runtime.  '
              'Cooperative scheduling with symbolic timeouts; select() and multi-vCPU pre-emption inside go.h are outside.',
         technique='bounded-context-switch sequentialisation of the real code (ir2c --thread) + CBMC, sync primitives as contracts', design_ref='DESIGN.md §3 C09, §7.1'),
+    'C13': dict(
+        text='HTTP/1.1 body framing on the real net/http/body.cpp (BodyReadStream, ChunkedBodyReadStream incl. pos_next_chunk / get_new_chunk / read_from_line_buf / read_from_stream, BodyWriteStream, ChunkedBodyWriteStream) over a symbolic wire: '
+             'well-formed chunked / Content-Length / close-delimited bodies are read back exactly (payload, then end of body, nothing beyond the body consumed) for every split into partial-body + recv fragments and every caller read size; '
+             'truncated input yields a prefix and never "complete"; arbitrary byte strings give the same result under two deliveries and never touch bytes that were not received; writers emit the reference coding and round-trip through the readers.',
+        note='Bounds: payload <= 2 bytes (quick) / 3-4 (thorough), <= 2-3 chunks, arbitrary strings <= 5 (quick) / 7 bytes.  Stub stream (recv returns 1..k bytes), snprintf("%zx") modelled exactly for values < 65536, '
+             'line-buffer storage is exactly the received bytes (the 4096 constant is real).  Header parsing is a separate job family (h_headers.cpp); URL / cookies / websocket are outside.',
+        technique=TECH, design_ref='DESIGN.md §3 C13'),
+    'C12': dict(
+        text='RPC serialization on the real rpc/serialize.h + common/iovector.*: six message shapes (int/buffer/string; nested message + array + aligned_buffer; CheckedMessage; fixed_buffer + iovec_array; sorted_map; buffer) - '
+             '(1) round trip: symbolic field contents and lengths, serialised, re-cut at symbolic points into 1-3 iovecs (zero-length pieces, body cut through the copying path), deserialised, field-wise equal; '
+             '(2) hostile bytes: arbitrary body (64-bit lengths, pointer bits) + 0..4 (quick) / 6 payload bytes: accepted iff every length fits sequentially (and checksum / allocation succeed), every accepted field denotes exactly its bytes, '
+             'every byte is read under CBMC bounds checks, accessors (sv(), get(), sorted_map iterators/find) stay inside; (3) checked messages: hashed bytes are payload||body in order on both sides, an altered byte is rejected.',
+        note='crc32c bound to a recording fold (the real table code does not compile with clang and builds its table at run time); IOAlloc default allocators asserted unreachable; pieces are end-aligned in exact-size static objects.  '
+             'Found and fixed: slice::anchor unchecked (abe0d44), iovec_array accepted on failed extract (2708f23), sv()/get() on zero-length / mis-sized fields (9592269).  Sorted maps with more than one entry and sorted_map_factory are outside.',
+        technique=TECH, design_ref='DESIGN.md §3 C12'),
 }
 
 NOT_APPLICABLE = {p: 'check under construction in this session (see DESIGN.md §3 for the plan); not claimed until its harness passes on the unchanged tree'
